@@ -12,13 +12,15 @@ import shutil
 import tempfile
 import types
 
-from common import clist, cZ, cbool, cpair, copt
+from common import clist, cZ, cbool, cpair, copt, cstr
 
 PROP = 'C12'
 COQ_DIR = 'Restart'
 ASSUMPTIONS = [
     'task outcome (exit reason), restart hook behaviour, system-stability verdict and failure of Engine.run() are oracle inputs',
-    'the working directory holds no DLMESO CONTROL file (default hook raises IOError on ResourceExhausted)',
+    'history cases run in a working directory without DLMESO CONTROL file (default hook raises IOError on ResourceExhausted); '
+    'the CONTROL-file cases drive the real DLMESORestart on generated ASCII files (line pool, 0-5 lines, missing, a directory)',
+    'engine view: the exited engine is dressed with a stub process and launch/finish dates before each exit is handled',
     'duck-typed job/specification objects; ComponentState is the real class with its constructor bypassed',
     'threads: RepeatingEngine.restart thread is not started (threading.Thread replaced); time.sleep is a no-op',
 ]
@@ -109,12 +111,12 @@ class Driver(object):
         self.E.Engine.run = self._orig_run
         shutil.rmtree(self.tmp, ignore_errors=True)
 
-    def job(self, cfg):
+    def job(self, cfg, wd=None):
         j = _Obj()
         j.reference = 'stage0.comp'
         j.name = 'comp'
         j.type = 'simulator' if cfg['is_sim'] else 'local'
-        j.directory = os.path.join(self.tmp, 'wd')
+        j.directory = wd or os.path.join(self.tmp, 'wd')
         j.workingDirectory = types.SimpleNamespace(path=j.directory)
         j.stageIndex = 0
         inst = self.tmp
@@ -145,16 +147,31 @@ class Driver(object):
         j.producersHaveOutputSinceDate = lambda d: False
         return j
 
-    def run_case(self, cfg, hist):
-        """returns (list of (code, restarts, resub), final or None)"""
+    def view(self, eng):
+        """what the controller can read off an ordinary engine (real methods on the real attributes)"""
+        inst = eng.__dict__.pop('exitReason', None)     # the per-exit oracle override, see run_case
+        try:
+            return (eng.exitReason(), eng.returncode(), bool(eng.isAlive()), eng.process is not None,
+                    eng._taskLaunched is not None, eng._taskFinished is not None)
+        finally:
+            if inst is not None:
+                eng.exitReason = inst
+
+    def fresh_view(self, cfg):
+        return self.view(self.E.Engine(self.job(cfg), taskGenerator=lambda *a, **k: None))
+
+    def run_case(self, cfg, hist, wd=None):
+        """returns (list of (code, restarts, resub), final or None, list of engine views)"""
+        import datetime
         E = self.E
-        job = self.job(cfg)
+        job = self.job(cfg, wd)
         if cfg['is_rep']:
             eng = E.RepeatingEngine(job, taskGenerator=lambda *a, **k: None)
         else:
             eng = E.Engine(job, taskGenerator=lambda *a, **k: None)
         cs = self.CS(eng, job)
         obs = []
+        views = []
         final = None
         codes = {'RestartInitiated': 'Initiated', 'RestartNotRequired': 'NotRequired',
                  'RestartCouldNotInitiate': 'CouldNotInitiate', 'RestartMaxAttemptsExceeded': 'MaxAttemptsExceeded'}
@@ -176,11 +193,21 @@ class Driver(object):
                 if reason == 'Success':
                     eng._resubmissionAttempts = 0
                 eng.exitReason = (lambda r=reason: r)
+                if not cfg['is_rep']:
+                    # the engine as a finished task leaves it: process, dates and exit reason set
+                    eng._exitReason = reason
+                    eng.process = StubProcess(reason)
+                    eng._runCalled = eng._taskLaunched = eng._taskFinished = datetime.datetime.now()
                 runs0 = self.runs[0]
                 got.clear()
-                self.ctl.postMortemCheck({}, cs)
-                code = codes.get(got.get('code'), 'EXC:%s' % got.get('code'))
+                try:
+                    self.ctl.postMortemCheck({}, cs)
+                    code = codes.get(got.get('code'), 'EXC:%s' % got.get('code'))
+                except Exception as error:     # postMortemCheck itself must not raise
+                    code = 'EXC:postMortemCheck raised %s' % type(error).__name__
                 obs.append((code, eng.restarts, eng.resubmissionAttempts()))
+                if not cfg['is_rep']:
+                    views.append(self.view(eng))
                 started = self.runs[0] - runs0
                 if cfg['is_rep']:
                     started = 1 if code == 'Initiated' else 0
@@ -197,7 +224,20 @@ class Driver(object):
         finally:
             E.threading.Thread = self._orig_thread
             del self.ctl._restartComponent
-        return obs, final
+        return obs, final, views
+
+
+class StubProcess(object):
+    """the attributes of a finished task that Engine.stateDictionary reads"""
+    def __init__(self, reason):
+        self.exitReason = reason
+        self.returncode = 0 if reason == 'Success' else 1
+        self.status = 'finished' if reason == 'Success' else 'failed'
+        self.schedulerId = None
+        self.performanceInfo = types.SimpleNamespace(getElements=lambda: {})
+
+    def isAlive(self):
+        return False
 
 
 # ------------------------------------------------------------------ Coq printing
@@ -224,6 +264,92 @@ def coq_obs(obs, final):
     return '(%s, %s)' % (o, f)
 
 
+def coq_view(v):
+    ex, rc, alive, proc, la, fi = v
+    return '(%s, %s, %s, %s, %s, %s)' % ('None' if ex is None else '(Some %s)' % ex,
+                                         'None' if rc is None else '(Some %s)' % cZ(rc),
+                                         cbool(alive), cbool(proc), cbool(la), cbool(fi))
+
+
+def coq_cf(cf):
+    """CONTROL file: None (cannot be opened) or (lines, last line has its newline)"""
+    if cf is None:
+        return 'None'
+    return '(Some {| cf_lines := %s; cf_last_nl := %s |})' % (clist([cstr(x) for x in cf[0]]), cbool(cf[1]))
+
+
+def coq_dl_hist(h):
+    return clist(['{| dl_reason := %s; dl_stable := %s; dl_run_ok := %s |}' % (r, cbool(s), cbool(o)) for (r, s, o) in h])
+
+
+# ------------------------------------------------------------------ the DLMESO CONTROL-file hook
+def write_control(wd, cf):
+    """cf: None (no file), 'dir' (a directory: open() raises IsADirectoryError, an IOError) or (lines, last_nl)"""
+    p = os.path.join(wd, 'CONTROL')
+    if cf is None:
+        return
+    if cf == 'dir':
+        os.makedirs(p)
+        return
+    lines, nl = cf
+    with open(p, 'w') as f:
+        f.write('\n'.join(lines) + ('\n' if (nl and lines) else ''))
+
+
+def read_control(wd):
+    p = os.path.join(wd, 'CONTROL')
+    if not os.path.isfile(p):
+        return None
+    c = open(p).read()
+    if c == '':
+        return ([], False)
+    lines = c.split('\n')
+    if c.endswith('\n'):
+        lines.pop()
+        return (lines, True)
+    return (lines, False)
+
+
+def canon_cf(cf):
+    return None if cf in (None, 'dir') else (list(cf[0]), bool(cf[1]))
+
+
+CONTROL_LINES = ['steps 100', 'restart', 'finish', '', 'temp 1.0', 'restart ', 'close time 10.0']
+
+
+def gen_control(rng):
+    x = rng.random()
+    if x < 0.12:
+        return None
+    if x < 0.18:
+        return 'dir'
+    n = rng.choice([0, 1, 1, 2, 2, 3, 3, 4, 5])
+    lines = [rng.choice(CONTROL_LINES) for _ in range(n)]
+    if n >= 2 and rng.random() < 0.3:
+        lines[-2] = 'restart'
+    nl = rng.random() < 0.7
+    if not lines:
+        nl = False
+    elif lines[-1] == '':
+        nl = True       # a last line that is empty and unterminated does not exist
+    return (lines, nl)
+
+
+def call_dlmeso(E, wd, reason, restarts):
+    try:
+        r = E.DLMESORestart(workingDirectory=wd, restarts=restarts, componentName='comp',
+                            log=logging.getLogger('verif.dlmeso'), exitReason=reason, exitCode=1)
+    except IOError:
+        return 'HRaiseIO'
+    except Exception:
+        return 'HRaiseOther'
+    if r is True:
+        return 'HTrue'
+    if r is False:
+        return 'HFalse'
+    return 'HJunk'
+
+
 # ------------------------------------------------------------------ property predicate on impl outputs
 def eff_max(cfg):
     mr = cfg['max_restarts']
@@ -232,9 +358,9 @@ def eff_max(cfg):
     return mr
 
 
-def predicate(ctx, cfg, hist, obs, final):
+def predicate(ctx, cfg, hist, obs, final, views=(), fresh=None, extra=None):
     cls = []
-    case = {'cfg': cfg, 'hist': hist, 'obs': obs, 'final': final}
+    case = dict(extra or {}, cfg=cfg, hist=hist, obs=obs, final=final)
     cont = 0
     consec = 0
     for (reason, hook, stable, ok), (code, restarts, resub) in zip(hist, obs):
@@ -242,9 +368,7 @@ def predicate(ctx, cfg, hist, obs, final):
             consec = 0
         if code == 'Initiated':
             if reason not in cfg['hook_on'] and reason != 'SubmissionFailed':
-                k = (['repeating_engine_restarts_on_unlisted_ResourceExhausted']
-                     if (cfg['is_rep'] and reason == 'ResourceExhausted' and not stable) else [])
-                ctx.fail(case, 'task restarted after an exit reason (%s) that is neither listed as restartable nor a failed submission' % reason, k)
+                ctx.fail(case, 'task restarted after an exit reason (%s) that is neither listed as restartable nor a failed submission' % reason, cls)
             if reason in ('Killed', 'Cancelled'):
                 ctx.fail(case, 'task restarted after %s' % reason, cls)
             if reason == 'SubmissionFailed':
@@ -261,11 +385,31 @@ def predicate(ctx, cfg, hist, obs, final):
         ctx.fail(case, 'number of restarts %d exceeds the maximum %d' % (cont, mx), cls)
     if consec > 5:
         ctx.fail(case, 'more than five consecutive re-submissions (%d)' % consec, cls)
+    # the engine's own counter: monotone, never reset, performed restarts <= counter <= maximum
+    prev = 0
+    for (code, restarts, resub) in obs:
+        if restarts < prev:
+            ctx.fail(case, 'the restart counter of the engine went down (%d -> %d)' % (prev, restarts), cls)
+        prev = restarts
+    if obs:
+        last = obs[-1][1]
+        if not (cont <= last <= cont + 1):
+            ctx.fail(case, 'engine.restarts (%d) does not account for the %d restarts performed' % (last, cont), cls)
+        cap = 1 if cfg['is_rep'] else (None if mx == -1 else max(0, mx))
+        if cap is not None and last > cap:
+            ctx.fail(case, 'engine.restarts (%d) passed the maximum (%d)' % (last, cap), cls)
+    total = sum(1 for o in obs if o[0] == 'Initiated')
+    if 'Success' not in cfg['hook_on'] and not cfg['is_rep'] and mx != -1 and total > max(0, mx) + 5:
+        ctx.fail(case, 'task started again %d times, more than maximum + 5 = %d' % (total, max(0, mx) + 5), cls)
     if obs and obs[-1][0] != 'Initiated':
         r = hist[len(obs) - 1][0]
         want = 'finished' if r == 'Success' else ('component_shutdown' if r in cfg['shutdown_on'] else 'failed')
         if final != want:
             ctx.fail(case, 'after a refused restart the component did not receive its final state (%s, expected %s)' % (final, want), cls)
+    # a restarted (ordinary) engine looks like a freshly built one to the controller
+    for (code, _, _), v in zip(obs, views):
+        if code == 'Initiated' and fresh is not None and tuple(v) != tuple(fresh):
+            ctx.fail(case, 'after an initiated restart the engine differs from a fresh one: %s vs %s' % (v, fresh), cls)
 
 
 # ------------------------------------------------------------------ generation
@@ -294,41 +438,153 @@ def gen_hist(rng, cfg, n):
     return h
 
 
+FRESH_CFG = {'max_restarts': 'absent', 'hook_file': 'HFNone', 'hook_loadable': False, 'hook_on': ['ResourceExhausted'],
+             'is_sim': False, 'sim_restart': False, 'is_rep': False, 'shutdown_on': []}
+
+
 def explore(ctx, cases):
     drv = Driver()
     terms = []
     try:
-        for cfg, hist in cases:
-            obs, final = drv.run_case(cfg, hist)
+        fresh = drv.fresh_view(FRESH_CFG)
+        import collections
+        queue = collections.deque(cases)
+        while queue:
+            item = queue.popleft()
+            cfg, hist = item[0], item[1]
+            obs, final, views = drv.run_case(cfg, hist)
+            if len(item) > 2 and len(hist) < item[2] and len(obs) == len(hist) and all(o[0] == 'Initiated' for o in obs):
+                # exhaustive family: a history goes on only while restarts are initiated (after a refusal the
+                # component has its final state and further exits are not handled), so only these are extended
+                for ev in item[3]:
+                    queue.append((cfg, hist + [ev], item[2], item[3]))
             nontriv = sum(1 for o in obs if o[0] == 'Initiated') >= 1
             ctx.case([cfg, hist], nontriv)
             ctx.count('hist_len_%d' % min(len(hist), 13))
             for o in obs:
                 ctx.count('code_' + o[0].split(':')[0])
-            predicate(ctx, cfg, hist, obs, final)
-            malformed = any(':' in o[0] for o in obs) or (final is not None and final not in FIN)
+            predicate(ctx, cfg, hist, obs, final, views, fresh)
+            malformed = any(':' in o[0] for o in obs) or (final is not None and final not in FIN) or \
+                any(v[0] is not None and v[0] not in REASONS for v in views)
             if malformed:
-                ctx.disagree({'cfg': cfg, 'hist': hist}, {'obs': obs, 'final': final}, None,
+                ctx.disagree({'cfg': cfg, 'hist': hist}, {'obs': obs, 'final': final, 'views': views}, None,
                              'C12 trace: implementation outcome not expressible in the model (engine start count / final state protocol)')
             else:
-                terms.append((cpair(cpair(coq_cfg(cfg), coq_hist(hist)), coq_obs(obs, final)), cfg, hist, obs, final))
+                t = cpair(cpair(cpair(coq_cfg(cfg), coq_hist(hist)), coq_obs(obs, final)),
+                          cpair(clist([coq_view(v) for v in views]), coq_view(fresh)))
+                terms.append((t, cfg, hist, obs, final, views))
             if nontriv:
                 ctx.sample({'cfg': cfg, 'history': hist, 'observed': obs, 'final': final}, limit=4)
     finally:
         drv.close()
-    bad = ctx.model_mismatches(HEADER, [t[0] for t in terms], 'check_case', chunk=400)
+    bad = ctx.model_mismatches(HEADER, [t[0] for t in terms], 'check_case_views', chunk=400)
     for k, i in enumerate(bad):
-        _, cfg, hist, obs, final = terms[i]
-        m = ctx.model_eval(HEADER, 'trace %s init_st %s' % (coq_cfg(cfg), coq_hist(hist))) if k < 3 else ''
-        ctx.disagree({'cfg': cfg, 'hist': hist}, {'obs': obs, 'final': final}, m,
-                     'C12 trace: postMortemCheck/Engine.restart vs Restart.Model.trace')
+        _, cfg, hist, obs, final, views = terms[i]
+        m = ctx.model_eval(HEADER, '(trace %s init_st %s, views %s init_st %s)' % (
+            coq_cfg(cfg), coq_hist(hist), coq_cfg(cfg), coq_hist(hist))) if k < 3 else ''
+        ctx.disagree({'cfg': cfg, 'hist': hist}, {'obs': obs, 'final': final, 'views': views, 'fresh': fresh}, m,
+                     'C12 trace: postMortemCheck/Engine.restart vs Restart.Model.trace/views')
+
+
+def explore_dlmeso(ctx, hook_cases, chain_cases):
+    """hook_cases: (reason, control file); chain_cases: (cfg, control file, [(reason, stable, run_ok)])"""
+    drv = Driver()
+    hterms, cterms = [], []
+    try:
+        for k, (reason, cf) in enumerate(hook_cases):
+            wd = os.path.join(drv.tmp, 'dlh%d' % k)
+            os.makedirs(wd)
+            write_control(wd, cf)
+            ho = call_dlmeso(drv.E, wd, reason, 1)
+            after = read_control(wd)
+            shutil.rmtree(wd, ignore_errors=True)
+            ctx.case(['dlmeso-hook', reason, cf], ho == 'HTrue')
+            ctx.count('dlmeso_hook_' + ho)
+            case = {'dlmeso_hook': True, 'reason': reason, 'control': cf}
+            # what the property needs of a hook instance: it answers within the protocol and rewrites the
+            # file only when it allows the restart
+            if ho == 'HJunk':
+                ctx.fail(case, 'DLMESORestart returned something that is neither a bool nor an exception', [])
+            if ho != 'HTrue' and after != canon_cf(cf):
+                ctx.fail(case, 'DLMESORestart changed the CONTROL file although it did not allow the restart', [])
+            if ho == 'HTrue' and not (after and len(after[0]) >= 2 and after[0][-2] == 'restart'):
+                ctx.fail(case, 'DLMESORestart allowed the restart without the restart keyword in CONTROL', [])
+            hterms.append((cpair(cpair(reason, coq_cf(canon_cf(cf))), cpair(ho, coq_cf(after))), case, ho, after))
+        for k, (cfg, cf, hist) in enumerate(chain_cases):
+            wd = os.path.join(drv.tmp, 'dlc%d' % k)
+            os.makedirs(wd)
+            write_control(wd, cf)
+            full = [(r, 'HPossible', st, ok) for (r, st, ok) in hist]
+            obs, final, views = drv.run_case(cfg, full, wd=wd)
+            after = read_control(wd)
+            shutil.rmtree(wd, ignore_errors=True)
+            nontriv = any(o[0] == 'Initiated' for o in obs)
+            ctx.case(['dlmeso-chain', cfg, cf, hist], nontriv)
+            ctx.count('dlmeso_chain_cases')
+            case = {'dlmeso_chain': True, 'cfg': cfg, 'control': cf, 'dl_hist': hist}
+            predicate(ctx, cfg, full, obs, final, extra=case)
+            if any(':' in o[0] for o in obs) or (final is not None and final not in FIN):
+                ctx.disagree(case, {'obs': obs, 'final': final}, None,
+                             'C12 DLMESO chain: implementation outcome not expressible in the model')
+                continue
+            t = cpair(cpair(cpair(coq_cfg(cfg), coq_cf(canon_cf(cf))), coq_dl_hist(hist)),
+                      '(%s, %s)' % (coq_obs(obs, final)[1:-1], coq_cf(after)))
+            cterms.append((t, case, obs, final, after))
+    finally:
+        drv.close()
+    bad = ctx.model_mismatches(HEADER, [t[0] for t in hterms], 'check_dlmeso_hook', chunk=400, name='dlhook')
+    for k, i in enumerate(bad):
+        _, case, ho, after = hterms[i]
+        m = ctx.model_eval(HEADER, 'dlmeso_hook %s %s' % (case['reason'], coq_cf(canon_cf(case['control'])))) if k < 3 else ''
+        ctx.disagree(case, {'answer': ho, 'control_after': after}, m, 'C12 DLMESORestart vs Restart.Model.dlmeso_hook')
+    bad = ctx.model_mismatches(HEADER, [t[0] for t in cterms], 'check_dlmeso_case', chunk=400, name='dlchain')
+    for k, i in enumerate(bad):
+        _, case, obs, final, after = cterms[i]
+        m = ctx.model_eval(HEADER, 'trace_dl %s init_st %s %s' % (
+            coq_cfg(case['cfg']), coq_cf(canon_cf(case['control'])), coq_dl_hist(case['dl_hist']))) if k < 3 else ''
+        ctx.disagree(case, {'obs': obs, 'final': final, 'control_after': after}, m,
+                     'C12 DLMESO chain: Engine.restart with the fallback hook and a CONTROL file vs Restart.Model.trace_dl')
+
+
+def dlmeso_cases(ctx):
+    rng = ctx.rng
+    # corpus: well-formed file, keyword already there, too short (hook fails), missing, a directory, other reason
+    hook_cases = [('ResourceExhausted', (['steps 100', 'finish'], True)),
+                  ('ResourceExhausted', (['steps 100', 'restart', 'finish'], True)),
+                  ('ResourceExhausted', (['finish'], True)), ('ResourceExhausted', ([], False)),
+                  ('ResourceExhausted', None), ('ResourceExhausted', 'dir'),
+                  ('KnownIssue', (['steps 100', 'finish'], False)), ('ResourceExhausted', (['a', 'b'], False))]
+    for _ in range(150 if ctx.tier == 'quick' else 1500):
+        hook_cases.append((rng.choice(['ResourceExhausted'] * 12 + REASONS), gen_control(rng)))
+    base = {'max_restarts': 'absent', 'hook_file': 'HFNone', 'hook_loadable': False, 'hook_on': ['ResourceExhausted'],
+            'is_sim': False, 'sim_restart': False, 'is_rep': False, 'shutdown_on': []}
+    re_ = ('ResourceExhausted', True, True)
+    chain_cases = [(base, (['steps 100', 'finish'], True), [re_] * 5),       # keyword once, three restarts, then refused
+                   (base, (['finish'], True), [re_]),                          # hook fails: IndexError
+                   (base, None, [re_] * 2),
+                   (dict(base, hook_file='HFEmpty', hook_loadable=True, max_restarts=1), (['a', 'b', 'c'], False), [re_] * 3)]
+    for _ in range(120 if ctx.tier == 'quick' else 1500):
+        cfg = gen_cfg(rng)
+        if rng.random() < 0.5:
+            cfg['hook_file'] = 'HFEmpty'
+        else:
+            cfg['hook_loadable'] = False
+        if rng.random() < 0.7 and 'ResourceExhausted' not in cfg['hook_on']:
+            cfg['hook_on'] = ['ResourceExhausted', 'KnownIssue']
+        pool = list(cfg['hook_on']) * 3 + ['ResourceExhausted'] * 3 + ['SubmissionFailed'] + REASONS
+        hist = [(rng.choice(pool), rng.random() < 0.75, rng.random() < 0.95) for _ in range(rng.randint(1, 7))]
+        chain_cases.append((cfg, gen_control(rng), hist))
+    return hook_cases, chain_cases
 
 
 def run(ctx):
     rng = ctx.rng
-    ctx.rule = ('exhaustive: every history of length <= L over 8 exit reasons x {hook says possible, not required, raises} '
+    ctx.rule = ('exhaustive: every history of length <= L (quick 3, thorough 4; a history is extended only while restarts are '
+                'initiated - after a refusal no further exit is handled) over 8 exit reasons x {hook says possible, not required, raises} '
                 'for a grid of configurations; plus random configurations x random histories (length <= 12, all 11 hook '
-                'behaviours, stability and run() oracles); non-trivial = at least one restart initiated; distinct by (cfg, history)')
+                'behaviours, stability and run() oracles); plus the real DLMESORestart on generated CONTROL files and the chain '
+                'with the fallback hook in a directory holding such a file; non-trivial = at least one restart initiated '
+                '(hook cases: restart allowed); distinct by (cfg, history) / (reason, file)')
     cases = []
     # corpus: witnesses of fixed / open findings first
     sf = {'max_restarts': -1, 'hook_file': 'HFNone', 'hook_loadable': False, 'hook_on': ['SubmissionFailed'],
@@ -337,7 +593,7 @@ def run(ctx):
     rep = dict(sf, hook_on=['KnownIssue'], is_rep=True, max_restarts=None)
     cases.append((rep, [('ResourceExhausted', 'HJunk', False, True), ('ResourceExhausted', 'HJunk', False, True)]))
     # exhaustive small scope
-    L = 2 if ctx.tier == 'quick' else 3
+    L = 3 if ctx.tier == 'quick' else 4
     grid = []
     for mr in (['absent', 0, 1, -1] if ctx.tier == 'quick' else ['absent', None, -1, 0, 1, 2]):
         for hf, ld in (('HFNone', False), ('HFNone', True), ('HFNamed', True), ('HFEmpty', True)):
@@ -346,27 +602,35 @@ def run(ctx):
                              'sim_restart': False, 'is_rep': False, 'shutdown_on': ['KnownIssue']})
     evs = [(r, hk, True, True) for r in REASONS for hk in ('HPossible', 'HNotRequired', 'HRaiseOther')]
     for cfg in grid:
-        for n in range(1, L + 1):
-            for h in itertools.product(evs, repeat=n):
-                # prune: a history continues only while restarts are initiated; keep all, the driver stops at refusal
-                cases.append((cfg, list(h)))
+        for ev in evs:
+            # a history continues only while restarts are initiated: explore() extends exactly those, up to length L
+            cases.append((cfg, [ev], L, evs))
     ctx.exhaustive = False
-    ctx.count('exhaustive_small_scope_cases', len(cases))
+    ctx.count('exhaustive_small_scope_roots', len(cases))
     nrand = 1500 if ctx.tier == 'quick' else 20000
     for _ in range(nrand):
         cfg = gen_cfg(rng)
         cases.append((cfg, gen_hist(rng, cfg, rng.randint(1, 12))))
     # de-duplicate the exhaustive part by effective prefix is not attempted; distinctness is counted by ctx.case
     explore(ctx, cases)
+    explore_dlmeso(ctx, *dlmeso_cases(ctx))
 
 
 def replay(ctx, path):
     d = json.load(open(path))
     c = d.get('case') or d.get('first', {}).get('case')
-    if not c or 'cfg' not in c:
+
+    def cf_of(x):
+        return x if x in (None, 'dir') else (list(x[0]), bool(x[1]))
+    if c and c.get('dlmeso_hook'):
+        explore_dlmeso(ctx, [(c['reason'], cf_of(c['control']))], [])
+    elif c and c.get('dlmeso_chain'):
+        explore_dlmeso(ctx, [], [(c['cfg'], cf_of(c['control']), [tuple(e) for e in c['dl_hist']])])
+    elif not c or 'cfg' not in c:
         print('replay file names no input (proof/correspondence obligation): re-run ./check C12')
         return 2
-    explore(ctx, [(c['cfg'], [tuple(e) for e in c['hist']])])
+    else:
+        explore(ctx, [(c['cfg'], [tuple(e) for e in c['hist']])])
     for f in ctx.failures:
         print('REPRODUCED: %s' % f['what'])
     for f in ctx.disagreements:
